@@ -17,6 +17,17 @@ def gen(rng, tier):
         else: D = common.random_divisor(rng, G, band=band)
         if sum(D) > 7 or max(abs(x) for x in D) > 9: continue
         out.append({"G": G, "D": D, "band": band, "pool": rng.choice(["raise", "raise", "inproc"]), "s": rng.randrange(1 << 30)})
+    # multi-edge paths on 3 / 4 vertices with small effective divisors (the rank loop removes chips one by one: many sub-divisors with several debtors next
+    # to heavy edges); quick: a sample, thorough: every path with multiplicities <= 3 x every divisor in the box {0,1,2}^n of degree <= 5
+    import itertools
+    allp = []
+    for n in (3, 4):
+        for mults in itertools.product((1, 2, 3), repeat=n - 1):
+            for D in itertools.product((0, 1, 2), repeat=n):
+                if 1 <= sum(D) <= 5: allp.append((n, mults, D))
+    for n, mults, D in (allp if tier == "thorough" else rng.sample(allp, 160)):
+        G = common.mk_graph(n, [(i, i + 1, mults[i]) for i in range(n - 1)], rng)
+        out.append({"G": G, "D": list(D), "band": "path", "fam": "exhaustive" if tier == "thorough" else "path", "pool": "raise", "s": rng.randrange(1 << 30)})
     return out
 def impl(c):
     import chipfiring.CFRank as R
